@@ -269,6 +269,10 @@ loop:
 
 	c = b[0]
 
+	// hf is reused from field to field: only a never indexed literal (or an
+	// indexed entry copied over it) may leave it marked as sensitive.
+	hf.sensible = false
+
 	switch {
 	// Indexed Header Field.
 	// The value must be indexed in the static or the dynamic table.
